@@ -62,12 +62,57 @@ class Plan:
 def add_edge_families(p, cfgname, edges):
     """programs exported by TLC from a design-level model (ACTION_CONSTRAINT Export) become scenarios for the real code"""
     progs = {True: [], False: []}
+    builder = []
     for e in edges:
         try:
             d = json.loads(e)
         except ValueError:
             continue        # a line torn by concurrent workers
+        if d["cfg"].get("builder"):
+            builder.append(d)
+            continue
         progs[bool(d["cfg"].get("batch", True))].append(d)
+    if builder:
+        builder.sort(key=lambda d: json.dumps(d, sort_keys=True))      # TLC's workers print in no particular order
+        def gb(ids, rng, lst=builder):
+            # every Builder call sequence TLC explored, executed on the real Builder: "real" kinds get a non-default
+            # value, the others keep the default; the initialisation is judged against exactly that configuration
+            out = []
+            pool = [("tiny565_4x3", 4, 3, ["rec", "spi", "p8", "p16"]), ("st7789", 240, 320, ["rec", "spi", "p8"]),
+                    ("ili9341_565", 240, 320, ["rec", "p16"]), ("gc9a01", 240, 240, ["rec", "spi"]), ("st7735s", 132, 162, ["rec", "p8"])]
+            for i, d in enumerate(lst):
+                model, W, H, ifs = pool[i % len(pool)]
+                real = set(d["real"])
+                c = {"model": model, "iface": ifs[(i // len(pool)) % len(ifs)], "buf": rng.choice([2, 3, 5, 64]), "rst": bool(d["rst"]),
+                     "rot": 0, "mir": False, "bgr": False, "inv": False, "refv": 0, "refh": 0, "border": list(d["border"])}
+                if "color" in real:
+                    c["bgr"] = True
+                if "invert" in real:
+                    c["inv"] = True
+                if "refresh" in real:
+                    c["refv"], c["refh"] = rng.choice([(1, 0), (0, 1), (1, 1)])
+                if "orient" in real:
+                    c["rot"], c["mir"] = rng.choice([o for o in gen.ORIENTS if o != (0, False)])
+                w, h, ox, oy = W, H, 0, 0
+                if "size" in real:
+                    w = rng.randrange(1, W); h = rng.randrange(1, H)
+                    c["w"], c["h"] = w, h
+                if "offset" in real:
+                    # mostly an offset that fits the window, sometimes one that does not (init must reject it)
+                    ox = rng.randrange(0, max(W - w, 0) + 2); oy = rng.randrange(0, max(H - h, 0) + 2)
+                    if (ox, oy) == (0, 0):
+                        ox = 1
+                    c["ox"], c["oy"] = ox, oy
+                calls = [gen.INIT]
+                if w + ox <= W and h + oy <= H:
+                    lw, lh = gen.lsize(w, h, c["rot"])
+                    calls += [{"name": "set_pixel", "x": lw - 1, "y": 0, "c": 0x1234}, {"name": "fill_solid", "rect": [0, lh - 1, lw, 1], "c": 0x0F0F},
+                              {"name": "set_orientation", "rot": (c["rot"] + 1) % 4, "mir": c["mir"]}]
+                    lw, lh = lh, lw
+                    calls.append({"name": "set_pixel", "x": 0, "y": lh - 1, "c": 0x4321})
+                out.append(gen.scn(ids, c, calls, tag="builder"))
+            return out
+        p.families.append(("tlc-builder-%s" % cfgname, True, "dev", gb))
     for batch, lst in progs.items():
         if not lst:
             continue
@@ -223,7 +268,7 @@ def plan_for(prop, tier, seed):
             ("parallel-faults", True, "dev", lambda ids, rng: G.f_xport_faults(ids, rng, ifaces=("p8", "p16"), n=300 if q else 20000)),
         ]
     elif prop == "C09":
-        p.mc = [("MC_Small", "MC_Small_init", 8, 900, None)]
+        p.mc = [("MC_Small", "MC_Small_init", 8, 900, None), ("MC_Builder", "MC_Builder_q" if q else "MC_Builder_t", 4, 900, None)]
         p.rule = ("case = (width, height, offset_x, offset_y, framebuffer, reset pin) given to Builder::init; non-trivial: the "
                   "tuple is within one unit of an acceptance boundary, contains a zero, or offset + size exceeds 65535")
         p.nontrivial = lambda sc: True
@@ -231,7 +276,7 @@ def plan_for(prop, tier, seed):
             ("init-grid", True, "dev", lambda ids, rng: G.f_init_grid(ids, rng, nrandom=3000 if q else 400000, grid_sample=0.3 if q else 10.0)),
         ]
     elif prop in ("C11", "C17"):
-        p.mc = [("MC_ModelInit", "MC_ModelInit", 12, 900, None)]
+        p.mc = [("MC_ModelInit", "MC_ModelInit", 12, 900, None)] + ([("MC_Builder", "MC_Builder_q" if q else "MC_Builder_t", 4, 900, None)] if prop == "C11" else [])
         p.rule = ("case = (model, interface kind, colour order, orientation, inversion, refresh order, reset pin); all 14 models x "
                   "every kind they accept or refuse, through Builder::init on real and recording transports and through "
                   "Model::init directly where the colour type hides the pairing from Builder")
@@ -286,7 +331,7 @@ def plan_for(prop, tier, seed):
             ("model-init", True, "dev", lambda ids, rng: G.f_model_init(ids, rng, full=False, after=False)),
         ]
     elif prop == "C14":
-        p.mc = [("MC_Small", "MC_Small_madctl", 8, 900, None)]
+        p.mc = [("MC_Small", "MC_Small_madctl", 8, 900, None), ("MC_Builder", "MC_Builder_q" if q else "MC_Builder_t", 4, 900, None)]
         p.rule = ("table rows = SetAddressMode::new / From<&ModelOptions> for all 64 input combinations, and sequences of 1..3 "
                   "with_* setters from all 64 API-reachable starting values (length 1 complete, 2 and 3 seeded samples in the "
                   "quick tier, complete in the thorough tier)")
@@ -548,6 +593,13 @@ def check(prop, tier, seed):
             print("  (%d further violating scenarios not written out)" % (len(new_by_scn) - 20))
         if others:
             log("[%s] note: verdict records attributed to other properties in these traces: %s" % (prop, others))
+            if os.environ.get("VERIF_SHOW_OTHERS"):
+                shown = set()
+                for v in viol:
+                    if prop not in v["props"] and v["id"] not in shown and len(shown) < 6:
+                        shown.add(v["id"])
+                        log("    other: call %d %s %s: %s\n      cfg=%s\n      calls=%s" % (v["i"], v["name"], v["props"], v["what"][:160],
+                            json.dumps(by_id[v["id"]]["cfg"]), json.dumps(by_id[v["id"]]["calls"])[:600]))
         scs = list(by_id.values())
         nt = sum(1 for sc in scs if p.nontrivial(sc))
         samples = []
